@@ -4,6 +4,7 @@
   lock acquisition are outside it (observed by the harness: canaries, watchdog, lock-order scan).
 -/
 import WowVerif.Lemmas.C19
+import WowVerif.Lemmas.C19Buf
 import WowVerif.Gen.Locks
 namespace Wv.C19
 open Wv.Ffi
@@ -42,6 +43,30 @@ theorem no_dangling (cs : List Call) :
 theorem fresh_handle (cs : List Call) :
     (run cs).next ∉ (run cs).archives ∧ (∀ p ∈ (run cs).files, p.1 ≠ (run cs).next) ∧
     (∀ p ∈ (run cs).finds, p.1 ≠ (run cs).next) := Ffi.fresh_handle _ (Ffi.inv_run cs)
+
+/-! ### caller buffers (Model.C19Buf): nothing is written outside them -/
+
+/-- SFileGetArchiveName: whatever is written fits the caller's `buffer_size`, is the path with its terminator — and the call
+    fails (writing nothing) exactly when the buffer is empty, the path holds a NUL, or path + terminator do not fit -/
+theorem archive_name_within_buffer (path : Wv.Bytes) (cap : Nat) :
+    (∀ w, Wv.Buf.archiveName path cap = some w → w.length ≤ cap ∧ w = path ++ [0] ∧ 0 ∉ path) ∧
+    (Wv.Buf.archiveName path cap = none ↔ cap = 0 ∨ 0 ∈ path ∨ cap < path.length + 1) :=
+  ⟨fun w h => Wv.Buf.archiveName_fits path cap w h, Wv.Buf.archiveName_none_iff path cap⟩
+
+/-- SFileGetFileName: at most MAX_PATH = 260 bytes are written for a name of ANY length, the last one a terminator -/
+theorem file_name_within_max_path (name w : Wv.Bytes) (h : Wv.Buf.fileName name = some w) :
+    w.length ≤ 260 ∧ w.getLast? = some 0 ∧ w.dropLast = name.take 259 := Wv.Buf.fileName_fits name w h
+
+/-- SFILE_FIND_DATA: cFileName is filled with exactly 260 bytes ending in a terminator, and szPlainName points inside it,
+    for a name of any length; behind the offset computed for the whole name there is no path separator -/
+theorem find_data_within_array (name : Wv.Bytes) :
+    (Wv.Buf.findData name).1.length = 260 ∧ (Wv.Buf.findData name).2 ≤ 259 ∧ (Wv.Buf.findData name).1[259]? = some 0 ∧
+      92 ∉ name.drop (Wv.Buf.plainStart name) :=
+  ⟨(Wv.Buf.findData_inside name).1, (Wv.Buf.findData_inside name).2.1, (Wv.Buf.findData_inside name).2.2.1,
+   Wv.Buf.plainStart_no_sep name⟩
+
+example : Wv.Buf.archiveName [97, 98] 3 = some [97, 98, 0] ∧ Wv.Buf.archiveName [97, 98] 2 = none := by decide
+example : Wv.Buf.plainStart [97, 92, 98, 92, 99, 100] = 4 := by decide
 
 /-- LOCK ORDER: the acquisition graph extracted from the C API's current source (regenerated every run) has no
     cycle — checked as "edges respect a strict ranking of the four global mutexes" -/
